@@ -697,11 +697,50 @@ def _corr_generated(ctx, out, drv, rng, both):
         io, is_, ts = rng.choice(flags)
         add("new_seq_get_translation", real_seq_tr("new", code, s.replace("U", "T"), io, is_, ts, moltype), code=code, s=s, mt="new" + moltype,
             strict=False, incomplete_ok=io, include_stop=is_, trim_stop=ts)
+        # old Sequence.get_translation (translated since wave 2: loops, try / except, continue, the RNA recursion), on gapped text and
+        # on text with ambiguity codes (resolve_ambiguity / what_ambiguity paths)
+        s2 = s if rng.random() < 0.5 else _u_if(_rand_seq(rng, rng.randint(0, 13), rng.choice(["canon", "stops", "degen", "degen"])), moltype)
+        add("old_seq_get_translation", real_seq_tr("old", code, s2.replace("U", "T"), io, is_, ts, moltype), code=code, s=s2, mt="old" + moltype,
+            strict=False, incomplete_ok=io, include_stop=is_, trim_stop=ts)
+    # the untranslated environment of old get_translation: protein moltype tables, moltype.ambiguities, the codon alphabets
+    from cogent3.core import moltype as omt
+
+    for code in codes[:3]:
+        def env_real():
+            g = _ogc(code)
+            d = {}
+            for name in ("protein", "protein_with_stop"):
+                mt = omt.get_moltype(name)
+                d[name] = dict(nchars=len(mt.alphabet), missing=mt.missing, ambiguities=[[k, "".join(v)] for k, v in mt.ambiguities.items()])
+            d["dna_ambiguities"] = [[k, "".join(v)] for k, v in omt.DNA.ambiguities.items()]
+            d["rna_ambiguities"] = [[k, "".join(v)] for k, v in omt.RNA.ambiguities.items()]
+            d["rna_to_dna_ambiguities"] = [[k.replace("U", "T"), "".join(v).replace("U", "T")] for k, v in omt.RNA.ambiguities.items()]
+            d["codon_alphabet"] = list(g.get_alphabet(include_stop=False).with_gap_motif())
+            d["codon_alphabet_with_stop"] = list(g.get_alphabet(include_stop=True).with_gap_motif())
+            return d
+        add("env", _call(env_real), code=code, s="")
+    for _ in range(60):
+        code = rng.choice(codes)
+        mtn = rng.choice(["dna", "rna"])
+        cod = _u_if("".join(rng.choice("ACGT" * 3 + "RYNWSKM-?B") for _ in range(rng.choice([3, 3, 3, 2, 4]))), mtn)
+        inc = rng.random() < 0.5
+        add("resolve", _call(lambda: list((omt.DNA if mtn == "dna" else omt.RNA).resolve_ambiguity(
+            cod, alphabet=_ogc(code).get_alphabet(include_stop=inc).with_gap_motif()))), code=code, s=cod, mt="old" + mtn, include_stop=inc)
+        name = rng.choice(["protein", "protein_with_stop"])
+        motifs = [rng.choice("ACDEFGHIKLMNPQRSTVWY*-?NDQE") for _ in range(rng.choice([1, 1, 2, 2, 3, 5]))]
+        add("what", _call(lambda: omt.get_moltype(name).what_ambiguity(motifs)), code=1, s=name, motifs=motifs)
     for (cmd, rq), real, mod, (fn, sort) in zip(reqs, reals, drv.batch(reqs), meta):
         out["evaluations"] += 1
         bump(out, "translated_fn", fn)
         if sort and isinstance(mod, list):
             mod = sorted(mod)
+        if fn == "env" and isinstance(mod, dict) and isinstance(real, dict) and "err" not in real:
+            for k in sorted(set(real) | set(mod)):
+                if real.get(k) != mod.get(k):
+                    add_failure(out, "corr", f"environment of the translated old get_translation: {k} differs from the runtime object", dict(rq, what=k),
+                                _short(str(mod.get(k))), _short(str(real.get(k))), confirmed=False)
+            out["nontrivial"].add(("gen", fn, str(rq["code"])))
+            continue
         if fn == "objects" and isinstance(mod, dict):
             mod = dict(mod, new_aa_to_codon=[[k, sorted(v)] for k, v in mod["new_aa_to_codon"]])
         if isinstance(real, dict) and isinstance(mod, dict) and "err" in real and "err" in mod and fn != "objects":
@@ -749,6 +788,10 @@ def _rc_ext(s):
     """reverse complement of a string that may contain gap / ambiguity / other characters (only ACGT are complemented;
     every other character makes its codon X or - on either strand)"""
     return s.translate(str.maketrans("ACGT", "TGCA"))[::-1]
+
+
+def _u_if(s, moltype):
+    return s.replace("T", "U") if moltype == "rna" else s
 
 
 def _short(x):
@@ -868,7 +911,12 @@ def check_case(case):
             if isinstance(shown, dict) or len(shown) != len(seqs):
                 return dict(what=f"{ep} [{mt}]: building the collection with history {'+'.join(hist)} failed", expected=seqs, got=shown,
                             sig=f"{ep}[{mt}]:history-build:{'+'.join(sorted(set(hist)))}")
-            case = dict(case, displayed_differs=[s.replace("U", "T") for s in shown] != list(seqs))
+            if [s.replace("U", "T") for s in shown] != list(seqs):
+                # judged since the repairs 437a33710 / d037a68a8 (take_seqs / rename_seqs / add_seqs / to_alphabet keep the reversed
+                # record): a collection must display what its history implies before its translation can mean anything
+                return dict(what=f"{ep} [{mt}]: after {'+'.join(hist)} the collection does not display the sequences its history implies "
+                                 "(every rc reverse-complements what is displayed; take_seqs / rename_seqs / copy / moltype conversion / slicing keep it)",
+                            expected=list(seqs), got=[s.replace("U", "T") for s in shown], sig=f"{ep}[{mt}]:derived-display:{'+'.join(sorted(set(hist)))}")
             seqs = [s.replace("U", "T") for s in shown]
             wants = [o_get_translation(cs, s, io, is_, ts, strict_length=False) for s in seqs]
         got = real_coll_tr(ep, code, case["seqs"], io, is_, ts, mt, hist)
